@@ -665,6 +665,13 @@ def database_created_once(ck, m):
             # the write acquisition the insert goes through
             wacq = [r[1] for r in origins(b, t['args'][0]) if r[0] == 'call' and callee_decl(b.term(r[1])) == 'std::sync::RwLock::write'
                     and 'Databases.map' in lock_id_of(b, b.term(r[1])['args'][0])]
+            # ... or through a helper that takes the write guard and hands it back (`acquire_dbs_write_lock()`)
+            for r in origins(b, t['args'][0]):
+                if r[0] == 'call':
+                    hb_ = P.bodies.get(callee(b.term(r[1])))
+                    if hb_ is not None and 'RwLockWriteGuard' in hb_.locals[0] and 'nundb::bo::Database>' in hb_.locals[0] \
+                            and any(callee_decl(t3) == 'std::sync::RwLock::write' and 'Databases.map' in lock_id_of(hb_, t3['args'][0]) for _, t3 in hb_.calls()):
+                        wacq.append(r[1])
             if not wacq:
                 continue            # a map under construction (Databases::new), not the shared one
             n += 1
